@@ -110,7 +110,7 @@ Fixpoint parse_call (fuel : nat) (ts : list tok) : option (call * list tok) :=
           else if is_sym "write" c then
             match r with TInt z :: r' => Some (CWrite (VInt z), r') | _ => None end
           else if is_sym "writefrag" c then
-            match r with TInt n :: TInt z :: r' => Some (CWriteFrag (VInt z) (Z.to_nat n), r') | _ => None end
+            match r with TInt n :: TInt z :: r' => Some (CWriteFrag (VInt z) (Nat.pred (Z.to_nat n)), r') | _ => None end
           else if is_sym "multi" c then
             match r with
             | TInt k :: r' => match parse_sreqs (Z.to_nat k) r' with Some (qs, r'') => Some (CMulti qs, r'') | None => None end
